@@ -254,9 +254,9 @@ func c19Run(c *fw.Ctx) fw.Outcome {
 // cross-process phase (driver): the same lists written in fresh processes give the same hashes
 func c19Driver(d *fw.DriverCtx) []fw.Outcome {
 	n := 24
-	procs := 4
+	procs := 6
 	if d.Tier == "thorough" {
-		n, procs = 200, 8
+		n, procs = 200, 10
 	}
 	var seeds []string
 	var seedVals []uint64
@@ -305,7 +305,7 @@ func init() {
 	fw.Register(&fw.Property{
 		ID:          "C19",
 		Level:       "exploration",
-		Rule:        "case = one cue list with 0..6 styles and 0..6 regions having heterogeneous attribute subsets (SSA attribute subsets, TTML attributes, WebVTT STYLE lines spread over several styles, styles without inline attributes, parents), metadata of every format present or absent, STL dates both/one/none. Oracle: (a) each of the 5 writers run 50 times on the list gives one distinct output; (b) driver phase: the same lists written in 4 (thorough 8) fresh processes give the same hashes; (c) a pointer-graph-aware deep dump of the list is identical before and after every write; (d) writing to the five formats in 24 (thorough: all 120) different orders on one list object gives the solo outputs; (e) under two different injected clocks all outputs are identical except STL when the metadata lacks a date, and then only GSI bytes 224..235 differ; (f) the package state digest (verif hook) and the data-segment digests (every package-level variable of the library as linked into the monitor, byte for byte and through slices/strings/pointers using the debug information) are unchanged at the end of the worker; (h) the list, written before, is edited in place (times, texts, bold/italic, tags) and must then be written exactly like a fresh list edited the same way; (g) after three other lists have gone through all writers and the list itself through the TTML writer with three indentation options, every writer still gives the solo output; (i) every fourth list also goes through Subtitles.Write to a path that held nothing, the same document, or a longer earlier file: the file must hold the writer's own bytes. distinct_nontrivial = distinct lists.",
+		Rule:        "case = one cue list with 0..6 styles and 0..6 regions having heterogeneous attribute subsets (SSA attribute subsets, TTML attributes, WebVTT STYLE lines spread over several styles, styles without inline attributes, parents), metadata of every format present or absent, STL dates both/one/none. Oracle: (a) each of the 5 writers run 50 times on the list gives one distinct output; (b) driver phase: the same lists written in 6 (thorough 10) fresh processes give the same hashes; (c) a pointer-graph-aware deep dump of the list is identical before and after every write; (d) writing to the five formats in 24 (thorough: all 120) different orders on one list object gives the solo outputs; (e) under two different injected clocks all outputs are identical except STL when the metadata lacks a date, and then only GSI bytes 224..235 differ; (f) the package state digest (verif hook) and the data-segment digests (every package-level variable of the library as linked into the monitor, byte for byte and through slices/strings/pointers using the debug information) are unchanged at the end of the worker; (h) the list, written before, is edited in place (times, texts, bold/italic, tags) and must then be written exactly like a fresh list edited the same way; (g) after three other lists have gone through all writers and the list itself through the TTML writer with three indentation options, every writer still gives the solo output; (i) every fourth list also goes through Subtitles.Write to a path that held nothing, the same document, or a longer earlier file: the file must hold the writer's own bytes. distinct_nontrivial = distinct lists.",
 		Assumptions: []string{"map iteration order is randomised by the Go runtime on every range statement, so 50 repetitions expose order dependence with overwhelming probability when at least two map entries contribute"},
 		Cases:       func(tier string) int64 { return tierN(tier, 300, 20000) },
 		Setup: func(c *fw.Ctx) error {
